@@ -348,6 +348,9 @@ func runRefsCase(r *rng) (coq string, ops []refOp, fails []OracleFailure, nOK in
 				continue
 			}
 			w.doc = nd
+			if _, has := nd.GetParts()["word/numbering.xml"]; has {
+				w.foreignNumbering = true // the rendered document carries numbering definitions its (new) manager does not know
+			}
 			ops = append(ops, refOp{Kind: "Render"})
 			steps = append(steps, "Do Render")
 		}
